@@ -25,6 +25,7 @@ def child_env():
     env["PYTHONPATH"] = os.pathsep.join([REPO, VERIF, DEPS])
     env["PYTHONDONTWRITEBYTECODE"] = "1"
     env["BROMELIA_VERIF"] = "1"
+    env["PYTHONWARNINGS"] = "ignore"
     return env
 
 
@@ -117,7 +118,7 @@ def _run_one(module, func, batch, timeout_s, idx):
             return {"_dead": "watchdog %ss batch %d %s" % (timeout_s, idx, tail)}
         if p.returncode != 0 or not os.path.exists(fout):
             return {"_dead": "worker rc=%s batch %d: %s" % (
-                p.returncode, idx, p.stderr[-2500:].decode("utf-8", "replace"))}
+                p.returncode, idx, p.stderr[-700:].decode("utf-8", "replace"))}
         with open(fout) as f:
             d = json.load(f)
         d["_wall"] = time.time() - t0
@@ -212,7 +213,7 @@ def finish(prop_id, tier, seed, level, acc, rule, assumptions, t0, extra_cov=Non
     if new:
         return 1
     if acc.inconclusive:
-        for r in acc.inconclusive[:10]:
-            print("INCONCLUSIVE property=%s reason=%s" % (prop_id, str(r)[:800]))
+        for r in acc.inconclusive[:3]:
+            print("INCONCLUSIVE property=%s reason=%s" % (prop_id, str(r)[-700:]))
         return 2
     return 0
